@@ -54,11 +54,7 @@ func concStr(v value, what string) string {
 
 func rtParam(in *Interp, fn *ssa.Function, args []value) value {
 	n := concStr(args[0], "rtParam name")
-	v, ok := in.params[n]
-	if !ok {
-		panic(engineErr("harness parameter %q not configured", n))
-	}
-	return v
+	return in.params[n] // parameters that are not configured are 0
 }
 
 func rtByte(in *Interp, fn *ssa.Function, args []value) value {
